@@ -57,12 +57,13 @@ PLANS['C03'] = Plan(
 
 PLANS['C16'] = Plan(
     'C16', ['src/correlation/vectorise.py::vectorisePositions', 'src/correlation/optical_map.py::toRelativeGenomicPositions',
-            'src/correlation/peaks_selector.py::PeaksSelector.selectPeaks'], 'other',
+            'src/correlation/peaks_selector.py::PeaksSelector.selectPeaks',
+            'src/correlation/sequence_generator.py::SequenceGenerator.positionsToSequence'], 'other',
     "Proved for all inputs (deductive): vectorisePositions (bit k set iff a label lies in [start+k*res, start+(k+1)*res), every label between start "
     "and end covered; ghost bin boundaries and witness array), toRelativeGenomicPositions (bin centre, within resolution/2 of every coordinate of the bin; "
     "element-wise numpy broadcasting assumed), PeaksSelector.selectPeaks (the count highest-scoring peaks in descending order; sorted() assumed stable "
     "ordered permutation). BOUNDED, not proved: blur (zip_longest/any/numpy) and CorrelationResult.createPeaks (numpy argpartition) are checked "
-    "exhaustively on small cases through the real functions; SequenceGenerator.positionsToSequence is their composition.",
+    "exhaustively on small cases through the real functions; SequenceGenerator.positionsToSequence (their composition, bins counted from `start`) is proved against the proved contract of vectorisePositions and the ASSUMED contract of blur.",
     bounded=_lazy('bcheck.c16', 'bounded'), replay=_lazy('bcheck.c16', 'replay'),
     technique='deductive (own VC generator + z3) for vectorise / bin-to-bp / seed selection; bounded exhaustive monitors for blur and createPeaks',
     assumptions=['numpy array arithmetic is element-wise (toRelativeGenomicPositions proved for one coordinate)',
@@ -117,10 +118,10 @@ PLANS['C15'] = Plan(
 
 WCF = 'src/workflow_coordinator.py::_WorkflowCoordinator.'
 PLANS['C07'] = Plan(
-    'C07', [WCF + '__align', WCF + '__getBestAlignment'], 'other',
+    'C07', [WCF + '__align', WCF + '__getBestAlignment', 'src/alignment/segment_chainer.py::SequentialityScorer.getScore'], 'other',
     "Deductive part (exception-freedom of the per-query glue, safety obligations generated automatically by the VC generator): _WorkflowCoordinator.__align "
     "never raises - in particular the unpacking of zip(*rows) is only reached with at least one candidate row - and __getBestAlignment returns None exactly for "
-    "an empty candidate list (else a maximal-confidence candidate); the numerical callees (FFT seeding, refinement, Aligner.align) are assumed contracts "
+    "an empty candidate list (else a maximal-confidence candidate); SequentialityScorer.getScore never divides by zero (both join-score variants); the numerical callees (FFT seeding, refinement, Aligner.align) are assumed contracts "
     "(result types only). BOUNDED: the whole program on generated well-formed CMAP sets with degenerate molecules over-weighted, all output modes and several "
     "parameter settings: no exception, well-formed files, every written file (zero-record ones included) is read back by the project's XMAP reader.",
     bounded=_lazy('bcheck.c07', 'bounded'), replay=_lazy('bcheck.c07', 'replay'),
@@ -208,5 +209,13 @@ PLANS['C20'] = Plan(
     technique='bounded exhaustive small-scope run-time contract on the real functions (no deductive part: aliasing / string concatenation)',
 )
 
+PLANS['C08'] = Plan(
+    'C08', [], 'other',
+    "BOUNDED: the four multi-pass modes of the real program on identical generated inputs (indel-containing and chimeric queries over-weighted, three "
+    "maxDifference values); all clauses of the statement are evaluated on the XMAP text with an independent parser.",
+    bounded=_lazy('bcheck.c08', 'bounded'), replay=_lazy('bcheck.c08', 'replay'),
+    technique='bounded differential run-time contract across output modes (deductive part: see functions_under_contract)',
+)
+
 NOT_APPLICABLE = {}
-FIX_COMMITS = ['a1f5353', '24a396c', 'd3d25c6', '9ca2be3', 'e4731ef']
+FIX_COMMITS = ['a1f5353', '24a396c', 'd3d25c6', '9ca2be3', 'e4731ef', '77613ad']
